@@ -85,11 +85,14 @@ def main():
                 if rng.random() < 0.4:
                     kind = rng.choice(['range', 'range2', 'enum'])
                     if kind == 'range':
-                        plan[n] = [('cost', {'ranges': [(0, 10)], 'elements': []}, rng.choice([0, 3, '7']), 0)]
+                        # the same attribute name on several features, each with a domain of its own
+                        lo = rng.choice([0, 0, 2, 5])
+                        plan[n] = [('cost', {'ranges': [(lo, lo + rng.choice([10, 3, 40]))], 'elements': []}, lo + rng.choice([0, 1, 3]), lo)]
                     elif kind == 'range2':
                         plan[n] = [('size', {'ranges': [(1, 3), (7, 9)], 'elements': []}, 2, 1), ('w', {'ranges': [(0, 1)], 'elements': []}, 1, 0)]
                     else:
-                        plan[n] = [('kind', {'ranges': [], 'elements': ['1', '2', '3']}, '1', '3')]
+                        els = rng.choice([['1', '2', '3'], ['1', '3', '5', '7'], ['2', '1']])
+                        plan[n] = [('kind', {'ranges': [], 'elements': els}, els[0], els[-1])]
             key = json.dumps(d, sort_keys=True) + json.dumps(plan, sort_keys=True, default=str)
             try:
                 m = build_with_attrs(d, plan)
